@@ -412,7 +412,27 @@ def process_cases(draw):
     return c
 
 
+def large_budget_cases():
+    """Declared budgets far above what the generated runs use (a code path switched on by size)."""
+    base = {"partition": {"cls": "BinaryPartition"}, "domain": [[0.0, 1.0]], "rng": {"mode": "seed", "seed": 3},
+            "reward": {"law": "peak", "seed": 4, "params": {"star": [0.3], "sigma": 0.2}}}
+    out = []
+    for aspec, T in (({"name": "VROOM", "params": {"n": 8200, "h_max": 14, "b": 1.0, "f_max": 1.0}}, 4),
+                     ({"name": "VROOM", "params": {"n": 20000, "h_max": 100, "b": 1.0, "f_max": 1.0}}, 3),
+                     ({"name": "StroquOOL", "params": {"n": 20000}}, 300), ({"name": "SequOOL", "params": {"n": 20000}}, 300),
+                     ({"name": "SOO", "params": {"n": 20000, "h_max": 40}}, 300), ({"name": "StoSOO", "params": {"n": 20000, "k": None, "h_max": 40}}, 300),
+                     ({"name": "DOO", "params": {"n": 20000}}, 300), ({"name": "T_HOO", "params": {"nu": 1.0, "rho": 0.5, "rounds": 10 ** 6}}, 300),
+                     ({"name": "GPO", "base": "HCT", "params": {"numax": 1.0, "rhomax": 0.9, "rounds": 50000}}, 400),
+                     ({"name": "POO", "base": "T_HOO", "params": {"numax": 1.0, "rhomax": 0.9, "rounds": 50000}}, 400)):
+        c = dict(base)
+        c["algo"] = aspec
+        c["T"] = T
+        out.append(c)
+    return out
+
+
 def run_shard(ctx):
+    ctx.enumerate("large-budget", large_budget_cases(), check_case)
     quick = ctx.tier == "quick"
     ctx.drive("repeat", repeat_cases(ctx.tier), check_case, ctx.budget(2400, 30000))
     ctx.drive_machine("interleave", make_machine(ctx.col, "interleave"), ctx.budget(1600, 16000), steps=20 if quick else 40)
